@@ -126,15 +126,15 @@ theorem mem_entriesOf {w : List (Key × Option Val)} {ts : Nat} {e : Entry} :
 -- ---------------------------------------------------------------- what a commit does
 
 /-- The three ways a `commit` of a live transaction with pending writes can end. -/
-inductive CommitCase (c : MvccCfg) (s : St) (id : Nat) (t : Txn) (r : St × Out) : Prop where
+inductive CommitCase (c : MvccCfg) (s : St) (id : Nat) (t : Txn) (io : Bool) (r : St × Out) : Prop where
   | conflict (h : hasConflict c s t = true) (hs : r.1 = discardTxn c s id t) (ho : r.2 = .conflict)
-  | failed (ho : r.2 = .toobig ∨ r.2 = .blocked)
+  | failed (ho : r.2 = .toobig ∨ r.2 = .blocked ∨ r.2 = .iofail)
       (hs : r.1 = discardTxn c (newCommitTs c s t) id { t with doneRead := true })
-  | applied (ho : r.2 = .ok) (hc : s.closed = false)
+  | applied (ho : r.2 = .ok) (hc : s.closed = false) (hio : io = false)
       (hs : r.1 = discardTxn c (applyCommit (newCommitTs c s t) t s.nextTs) id { t with doneRead := true })
 
-theorem commitTxn_cases (c : MvccCfg) (s : St) (id : Nat) (t : Txn)
-    (hd : t.discarded = false) (hw : t.writes ≠ []) : CommitCase c s id t (commitTxn c s id t) := by
+theorem commitTxn_cases (c : MvccCfg) (s : St) (id : Nat) (t : Txn) (io : Bool)
+    (hd : t.discarded = false) (hw : t.writes ≠ []) : CommitCase c s id t io (commitTxn c s id t io) := by
   unfold commitTxn
   simp only [hd, hw, if_false, Bool.false_eq_true]
   by_cases h1 : (c.checksConflict && hasConflict c s t) = true
@@ -148,34 +148,40 @@ theorem commitTxn_cases (c : MvccCfg) (s : St) (id : Nat) (t : Txn)
     · simp only [h2, if_false]
       by_cases h3 : (newCommitTs c s t).closed = true
       · simp only [h3, if_true]
-        exact .failed (Or.inr rfl) rfl
+        exact .failed (Or.inr (Or.inl rfl)) rfl
       · simp only [h3, if_false]
-        refine .applied rfl ?_ rfl
-        simpa using h3
+        by_cases h4 : io = true
+        · simp only [h4, if_true]
+          exact .failed (Or.inr (Or.inr rfl)) rfl
+        · simp only [h4, if_false]
+          refine .applied rfl ?_ (by simpa using h4) rfl
+          simpa using h3
 
 /-- Every step either leaves store, ghost log and `nextTs` alone, or is a commit that hands out
-`s.nextTs` and (only when it answers `ok`) prepends exactly the transaction's entries. -/
-inductive StepKind (c : MvccCfg) (s : St) (r : St × Out) : Prop where
+`s.nextTs` and (only when it answers `ok`) prepends exactly the transaction's entries, or is a
+reopen (store and log kept, a new oracle). -/
+inductive StepKind (c : MvccCfg) (s : St) (op : Op) (r : St × Out) : Prop where
   | same (h1 : r.1.store = s.store) (h2 : r.1.log = s.log) (h3 : r.1.nextTs = s.nextTs)
   | burnt (h1 : r.1.store = s.store) (h2 : r.1.log = s.log) (h3 : r.1.nextTs = s.nextTs + 1) (ho : r.2 ≠ .ok)
-  | commit (t : Txn) (h1 : r.1.store = entriesOf t.writes s.nextTs ++ s.store)
+  | commit (t : Txn) (hw : t.writes ≠ []) (h1 : r.1.store = entriesOf t.writes s.nextTs ++ s.store)
       (h2 : r.1.log = { ts := s.nextTs, readTs := t.readTs, writes := t.writes, rlog := t.rlog } :: s.log)
       (h3 : r.1.nextTs = s.nextTs + 1) (ho : r.2 = .ok)
+  | reopened (hop : op = .reopen) (hs : r.1 = reopenDB c s)
 
-theorem commitTxn_kind (c : MvccCfg) (s : St) (id : Nat) (t : Txn) : StepKind c s (commitTxn c s id t) := by
+theorem commitTxn_kind (c : MvccCfg) (s : St) (op : Op) (id : Nat) (t : Txn) (io : Bool) : StepKind c s op (commitTxn c s id t io) := by
   by_cases hd : t.discarded = true
   · unfold commitTxn; simp only [hd, if_true]; exact .same rfl rfl rfl
   · by_cases hw : t.writes = []
     · unfold commitTxn; simp only [hd, hw, if_true, if_false, Bool.false_eq_true]
       exact .same (by simp) (by simp) (by simp)
     · have hd' : t.discarded = false := by simpa using hd
-      rcases commitTxn_cases c s id t hd' hw with ⟨_, hs, _⟩ | ⟨ho, hs⟩ | ⟨ho, _, hs⟩
+      rcases commitTxn_cases c s id t io hd' hw with ⟨_, hs, _⟩ | ⟨ho, hs⟩ | ⟨ho, _, _, hs⟩
       · exact .same (by rw [hs]; simp) (by rw [hs]; simp) (by rw [hs]; simp)
       · refine .burnt (by rw [hs]; simp) (by rw [hs]; simp) (by rw [hs]; simp) ?_
-        rcases ho with ho | ho <;> rw [ho] <;> simp
-      · exact .commit t (by rw [hs]; simp) (by rw [hs]; simp) (by rw [hs]; simp) ho
+        rcases ho with ho | ho | ho <;> rw [ho] <;> simp
+      · exact .commit t hw (by rw [hs]; simp) (by rw [hs]; simp) (by rw [hs]; simp) ho
 
-theorem step_kind (c : MvccCfg) (fp : Key → Nat) (s : St) (op : Op) : StepKind c s (step c fp s op) := by
+theorem step_kind (c : MvccCfg) (fp : Key → Nat) (s : St) (op : Op) : StepKind c s op (step c fp s op) := by
   cases op with
   | begin id upd => exact .same rfl rfl rfl
   | get id k =>
@@ -200,7 +206,22 @@ theorem step_kind (c : MvccCfg) (fp : Key → Nat) (s : St) (op : Op) : StepKind
     simp only [step]
     split
     · exact .same rfl rfl rfl
-    · exact commitTxn_kind c s id _
+    · exact commitTxn_kind c s _ id _ false
+  | commitIO id =>
+    simp only [step]
+    split
+    · exact .same rfl rfl rfl
+    · exact commitTxn_kind c s _ id _ true
+  | scan id =>
+    simp only [step]
+    split
+    · exact .same rfl rfl rfl
+    · split
+      · exact .same rfl rfl rfl
+      · split
+        · exact .same rfl rfl rfl
+        · exact .same rfl rfl rfl
+  | reopen => exact .reopened rfl rfl
   | discard id =>
     simp only [step]
     split
@@ -307,9 +328,10 @@ structure InvA (s : St) : Prop where
   logLt : ∀ cm ∈ s.log, cm.ts < s.nextTs
   logSorted : s.log.Pairwise (fun a b => b.ts < a.ts)
   storeLog : ∀ e, e ∈ s.store ↔ Committed s.log e
+  logNonempty : ∀ cm ∈ s.log, cm.writes ≠ []
 
 theorem InvA_init (a b t : Nat) : InvA (init a b t) := by
-  refine ⟨?_, ?_, ?_, ?_⟩
+  refine ⟨?_, ?_, ?_, ?_, ?_⟩
   · intro e he; cases he
   · intro cm hcm; cases hcm
   · exact List.Pairwise.nil
@@ -317,16 +339,47 @@ theorem InvA_init (a b t : Nat) : InvA (init a b t) := by
     constructor
     · intro he; cases he
     · rintro ⟨cm, hcm, _⟩; cases hcm
+  · intro cm hcm; cases hcm
 
-theorem InvA_step (c : MvccCfg) (fp : Key → Nat) (s : St) (op : Op) (h : InvA s) :
+theorem le_maxTs {st : List Entry} {e : Entry} (h : e ∈ st) : e.ts ≤ maxTs st := by
+  induction st with
+  | nil => cases h
+  | cons x xs ih =>
+    simp only [maxTs, List.foldr_cons]
+    rcases List.mem_cons.mp h with rfl | h
+    · omega
+    · have := ih h; simp only [maxTs] at this; omega
+
+theorem ge_nat' (a b : Nat) : CmpOp.nat .ge a b = true ↔ b ≤ a := by
+  simp [CmpOp.nat, CmpOp.eval]
+
+theorem reopen_nextTs (c : MvccCfg) (hc : c.SeedGood) (s : St) : (reopenDB c s).nextTs = maxTs s.store + 1 := by
+  unfold MvccCfg.SeedGood at hc
+  simp only [reopenDB, hc, ge_nat']
+  by_cases hm : maxTs s.store = 0
+  · simp [hm]
+  · have : 1 ≤ maxTs s.store := by omega
+    simp [hm, this]
+
+theorem InvA.logLe {s : St} (h : InvA s) : ∀ cm ∈ s.log, cm.ts ≤ maxTs s.store := by
+  intro cm hcm
+  have hne := h.logNonempty cm hcm
+  cases hw : cm.writes with
+  | nil => exact absurd hw hne
+  | cons p ps =>
+    have hmem : ({ key := p.1, ts := cm.ts, val := p.2 } : Entry) ∈ s.store :=
+      (h.storeLog _).mpr ⟨cm, hcm, rfl, by rw [hw]; exact List.mem_cons_self⟩
+    exact le_maxTs hmem
+
+theorem InvA_step (c : MvccCfg) (hc : c.SeedGood) (fp : Key → Nat) (s : St) (op : Op) (h : InvA s) :
     InvA (step c fp s op).1 := by
-  rcases step_kind c fp s op with ⟨h1, h2, h3⟩ | ⟨h1, h2, h3, _⟩ | ⟨t, h1, h2, h3, _⟩
+  rcases step_kind c fp s op with ⟨h1, h2, h3⟩ | ⟨h1, h2, h3, _⟩ | ⟨t, hw, h1, h2, h3, _⟩ | ⟨_, hs⟩
   · exact ⟨by rw [h1, h3]; exact h.storeLt, by rw [h2, h3]; exact h.logLt, by rw [h2]; exact h.logSorted,
-      by rw [h1, h2]; exact h.storeLog⟩
-  · refine ⟨?_, ?_, by rw [h2]; exact h.logSorted, by rw [h1, h2]; exact h.storeLog⟩
+      by rw [h1, h2]; exact h.storeLog, by rw [h2]; exact h.logNonempty⟩
+  · refine ⟨?_, ?_, by rw [h2]; exact h.logSorted, by rw [h1, h2]; exact h.storeLog, by rw [h2]; exact h.logNonempty⟩
     · rw [h1, h3]; intro e he; have := h.storeLt e he; omega
     · rw [h2, h3]; intro e he; have := h.logLt e he; omega
-  · refine ⟨?_, ?_, ?_, ?_⟩
+  · refine ⟨?_, ?_, ?_, ?_, ?_⟩
     · rw [h1, h3]
       intro e he
       rcases List.mem_append.mp he with he | he
@@ -354,20 +407,31 @@ theorem InvA_step (c : MvccCfg) (fp : Key → Nat) (s : St) (op : Op) (h : InvA 
         rcases List.mem_cons.mp hcm with rfl | hcm
         · exact List.mem_append_left _ (mem_entriesOf.mpr ⟨h4, h5⟩)
         · exact List.mem_append_right _ ((h.storeLog e).mpr ⟨cm, hcm, h4, h5⟩)
+    · rw [h2]
+      intro cm hcm
+      rcases List.mem_cons.mp hcm with rfl | hcm
+      · exact hw
+      · exact h.logNonempty cm hcm
+  · have e1 : (step c fp s op).1.store = s.store := by rw [hs]; rfl
+    have e2 : (step c fp s op).1.log = s.log := by rw [hs]; rfl
+    have e3 : (step c fp s op).1.nextTs = maxTs s.store + 1 := by rw [hs]; exact reopen_nextTs c hc s
+    refine ⟨?_, ?_, by rw [e2]; exact h.logSorted, by rw [e1, e2]; exact h.storeLog, by rw [e2]; exact h.logNonempty⟩
+    · rw [e1, e3]; intro e he; have := le_maxTs he; omega
+    · rw [e2, e3]; intro cm hcm; have := h.logLe cm hcm; omega
 
-theorem InvA_run (c : MvccCfg) (fp : Key → Nat) (ops : List Op) (s : St) (h : InvA s) :
+theorem InvA_run (c : MvccCfg) (hc : c.SeedGood) (fp : Key → Nat) (ops : List Op) (s : St) (h : InvA s) :
     InvA (run c fp s ops) := by
   induction ops generalizing s with
   | nil => exact h
-  | cons op ops ih => exact ih _ (InvA_step c fp s op h)
+  | cons op ops ih => exact ih _ (InvA_step c hc fp s op h)
 
 /-- states reachable from a fresh database by any sequence of API calls -/
 def Reach (c : MvccCfg) (fp : Key → Nat) (s : St) : Prop :=
   ∃ a b t ops, s = run c fp (init a b t) ops
 
-theorem Reach_InvA {c : MvccCfg} {fp : Key → Nat} {s : St} (h : Reach c fp s) : InvA s := by
+theorem Reach_InvA {c : MvccCfg} (hc : c.SeedGood) {fp : Key → Nat} {s : St} (h : Reach c fp s) : InvA s := by
   obtain ⟨a, b, t, ops, rfl⟩ := h
-  exact InvA_run c fp ops _ (InvA_init a b t)
+  exact InvA_run c hc fp ops _ (InvA_init a b t)
 
 theorem run_append (c : MvccCfg) (fp : Key → Nat) (s : St) (xs ys : List Op) :
     run c fp s (xs ++ ys) = run c fp (run c fp s xs) ys := by
@@ -398,19 +462,26 @@ theorem Reach_ind {c : MvccCfg} {fp : Key → Nat} {P : St → Prop}
     | cons op ops ih => intro s0 hr h; exact ih _ (Reach_step hr op) (hstep s0 op hr h)
   exact this ops _ ⟨a, b, t, [], rfl⟩ (h0 a b t)
 
-theorem step_nextTs_mono (c : MvccCfg) (fp : Key → Nat) (s : St) (op : Op) : s.nextTs ≤ (step c fp s op).1.nextTs := by
-  rcases step_kind c fp s op with ⟨_, _, h3⟩ | ⟨_, _, h3, _⟩ | ⟨_, _, _, h3, _⟩ <;> omega
+theorem step_nextTs_mono (c : MvccCfg) (fp : Key → Nat) (s : St) (op : Op) (hop : op ≠ .reopen) :
+    s.nextTs ≤ (step c fp s op).1.nextTs := by
+  rcases step_kind c fp s op with ⟨_, _, h3⟩ | ⟨_, _, h3, _⟩ | ⟨_, _, _, _, h3, _⟩ | ⟨h, _⟩
+  · omega
+  · omega
+  · omega
+  · exact absurd h hop
 
-/-- the store below `nextTs` never changes again -/
-theorem readAt_stable (c : MvccCfg) (fp : Key → Nat) (ops : List Op) (s : St) (h : InvA s) (k : Key) (r : Nat)
+/-- without a reopen in between, the store below `nextTs` never changes again -/
+theorem readAt_stable (c : MvccCfg) (hc : c.SeedGood) (fp : Key → Nat) (ops : List Op) (hno : Op.reopen ∉ ops)
+    (s : St) (h : InvA s) (k : Key) (r : Nat)
     (hr : r < s.nextTs) : readAt (run c fp s ops).store k r = readAt s.store k r := by
   induction ops generalizing s with
   | nil => rfl
   | cons op ops ih =>
     simp only [run]
-    have hmono := step_nextTs_mono c fp s op
-    rw [ih _ (InvA_step c fp s op h) (by omega)]
-    rcases step_kind c fp s op with ⟨h1, _, _⟩ | ⟨h1, _, _, _⟩ | ⟨t, h1, _, _, _⟩
+    have hop : op ≠ .reopen := fun h => hno (h ▸ List.mem_cons_self)
+    have hmono := step_nextTs_mono c fp s op hop
+    rw [ih (fun h => hno (List.mem_cons_of_mem _ h)) _ (InvA_step c hc fp s op h) (by omega)]
+    rcases step_kind c fp s op with ⟨h1, _, _⟩ | ⟨h1, _, _, _⟩ | ⟨t, _, h1, _, _, _⟩ | ⟨h, _⟩
     · rw [h1]
     · rw [h1]
     · rw [h1]
@@ -418,6 +489,7 @@ theorem readAt_stable (c : MvccCfg) (fp : Key → Nat) (ops : List Op) (s : St) 
       intro e he
       have := (mem_entriesOf.mp he).1
       omega
+    · exact absurd h hop
 
 theorem getTxn_congr {s1 s2 : St} (h : s1.txns = s2.txns) (id : Nat) : getTxn s1 id = getTxn s2 id := by
   unfold getTxn; rw [h]
@@ -441,6 +513,10 @@ inductive Evolve (c : MvccCfg) (fp : Key → Nat) (t : Txn) : Txn → Prop where
                              rkeys := k :: t.rkeys, rlog := (k, res) :: t.rlog }
   | write (k : Key) (v : Option Val) (cnt sz : Nat) :
       Evolve c fp t { t with count := cnt, size := sz, ckeys := addFp t.ckeys (fp k), writes := setW t.writes k v }
+  | scan (tracked : List (Key × Val × Nat)) :
+      Evolve c fp t { t with reads := t.reads ++ tracked.map (fun it => fp it.1),
+                             rkeys := tracked.map (fun it => it.1) ++ t.rkeys,
+                             rlog := tracked.map (fun it => (it.1, some it.2.1)) ++ t.rlog }
 
 theorem Evolve.fixed {c : MvccCfg} {fp : Key → Nat} {t t' : Txn} (h : Evolve c fp t t') :
     t'.readTs = t.readTs ∧ t'.tag = t.tag ∧ t'.update = t.update ∧ t'.doneRead = t.doneRead ∧
@@ -515,6 +591,53 @@ theorem step_live (c : MvccCfg) (fp : Key → Nat) (s : St) (op : Op) (id : Nat)
               exact Or.inl ⟨t0, ⟨ht0, by simpa using hd⟩, .write k v _ _⟩
             · simp only [hid, if_false] at hg
               exact keep hg
+  | reopen =>
+    simp [step, reopenDB, getTxn] at hg
+  | scan id0 =>
+    simp only [step] at hg
+    split at hg
+    · exact keep hg
+    · rename_i t0 ht0
+      split at hg
+      · exact keep hg
+      · split at hg
+        · exact keep hg
+        · simp only [scanTxn] at hg
+          rw [getTxn_putTxn] at hg
+          by_cases hid : id0 = id
+          · subst hid
+            simp only [if_true, Option.some.injEq] at hg
+            subst hg
+            exact Or.inl ⟨t0, ⟨ht0, by simpa using hd⟩, .scan _⟩
+          · simp only [hid, if_false] at hg
+            exact keep hg
+  | commitIO id0 =>
+    simp only [step] at hg
+    split at hg
+    · exact keep hg
+    · rename_i t0 ht0
+      have key : ∀ (s1 : St) (t1 : Txn), s1.txns = s.txns → getTxn (discardTxn c s1 id0 t1) id = some t' →
+          (∃ t, Live s id t ∧ Evolve c fp t t') := by
+        intro s1 t1 htx hg1
+        rw [getTxn_discardTxn] at hg1
+        by_cases hid : id0 = id
+        · simp only [hid, if_true, Option.some.injEq] at hg1
+          subst hg1
+          simp at hd
+        · simp only [hid, if_false] at hg1
+          rw [getTxn_congr htx] at hg1
+          exact ⟨t', ⟨hg1, hd⟩, .same⟩
+      by_cases hd0 : t0.discarded = true
+      · simp only [commitTxn, hd0, if_true] at hg
+        exact keep hg
+      · by_cases hw : t0.writes = []
+        · simp only [commitTxn, hd0, hw, if_true, if_false, Bool.false_eq_true] at hg
+          exact Or.inl (key s t0 rfl hg)
+        · have hd0' : t0.discarded = false := by simpa using hd0
+          rcases commitTxn_cases c s id0 t0 true hd0' hw with ⟨_, hs, _⟩ | ⟨_, hs⟩ | ⟨_, _, _, hs⟩
+          · rw [hs] at hg; exact Or.inl (key s t0 rfl hg)
+          · rw [hs] at hg; exact Or.inl (key _ _ (by simp) hg)
+          · rw [hs] at hg; exact Or.inl (key _ _ (by simp) hg)
   | commit id0 =>
     simp only [step] at hg
     split at hg
@@ -538,7 +661,7 @@ theorem step_live (c : MvccCfg) (fp : Key → Nat) (s : St) (op : Op) (id : Nat)
         · simp only [commitTxn, hd0, hw, if_true, if_false, Bool.false_eq_true] at hg
           exact Or.inl (key s t0 rfl hg)
         · have hd0' : t0.discarded = false := by simpa using hd0
-          rcases commitTxn_cases c s id0 t0 hd0' hw with ⟨_, hs, _⟩ | ⟨_, hs⟩ | ⟨_, _, hs⟩
+          rcases commitTxn_cases c s id0 t0 false hd0' hw with ⟨_, hs, _⟩ | ⟨_, hs⟩ | ⟨_, _, _, hs⟩
           · rw [hs] at hg; exact Or.inl (key s t0 rfl hg)
           · rw [hs] at hg; exact Or.inl (key _ _ (by simp) hg)
           · rw [hs] at hg; exact Or.inl (key _ _ (by simp) hg)
@@ -578,17 +701,23 @@ theorem InvB_init (a b t : Nat) : InvB (init a b t) := by
 
 theorem InvB_step (c : MvccCfg) (hc : c.SnapGood) (fp : Key → Nat) (s : St) (op : Op) (h : InvB s) :
     InvB (step c fp s op).1 := by
-  have hmono := step_nextTs_mono c fp s op
-  refine ⟨by have := h.pos; omega, ?_⟩
-  intro id t' hl
-  rcases step_live c fp s op id t' hl with ⟨t, hlt, hev⟩ | ⟨upd, _, hr⟩
-  · have := h.readLt id t hlt
-    have := hev.fixed.1
-    omega
-  · have := h.pos
-    unfold MvccCfg.SnapGood at hc
-    subst hr
-    simp only [hc]; omega
+  by_cases hop : op = .reopen
+  · subst hop
+    refine ⟨?_, ?_⟩
+    · simp only [step, reopenDB]; split <;> omega
+    · intro id t' hl
+      simp [Live, step, reopenDB, getTxn] at hl
+  · have hmono := step_nextTs_mono c fp s op hop
+    refine ⟨by have := h.pos; omega, ?_⟩
+    intro id t' hl
+    rcases step_live c fp s op id t' hl with ⟨t, hlt, hev⟩ | ⟨upd, _, hr⟩
+    · have := h.readLt id t hlt
+      have := hev.fixed.1
+      omega
+    · have := h.pos
+      have hoff := hc.1
+      subst hr
+      simp only [hoff]; omega
 
 theorem Reach_InvB {c : MvccCfg} (hc : c.SnapGood) {fp : Key → Nat} {s : St} (h : Reach c fp s) : InvB s :=
   Reach_ind (P := InvB) InvB_init (fun s op _ hs => InvB_step c hc fp s op hs) h
